@@ -13,6 +13,9 @@
 //!   FB {"ev":"FB","bin","size","align","res":offset of the returned cell in its block,
 //!       "cell":recorded cell size,"block":64KB,"free":[offsets of the cells still in the list]}
 //!   Offsets are `addr - block_start`, clamped to +-2^30.
+//!   AL {"ev":"AL","size","la","lmin","lmax","max_non_los","res","cell","block"}  a request at the
+//!       upper end of the domain through memory_manager::alloc; res = offset of the result in its
+//!       block, -1 = the call panicked, -2 = null.
 use crate::quiet;
 use crate::vm::StubVM;
 use mmtk::util::opaque_pointer::*;
@@ -175,6 +178,40 @@ pub fn run_fresh_block() {
                     .finish(),
             );
         }
+    }
+    // AL rows: requests at the upper end of the domain through the public allocation API. The plan
+    // declares sizes up to `max_non_los_default_alloc_bytes` legal for the default allocator.
+    let max_non_los = mmtk.get_plan().constraints().max_non_los_default_alloc_bytes;
+    let maxa = <FVM as VMBinding>::MAX_ALIGNMENT;
+    let mut reqs: Vec<(usize, usize)> = vec![(max_bin_size - maxa, align), (max_bin_size - maxa, maxa), (max_bin_size, align)];
+    reqs.push((max_bin_size, maxa)); // last: may leave the allocator in an undefined state
+    for (size, al) in reqs {
+        let mref: &mut mmtk::Mutator<FVM> = &mut *mutator;
+        let mptr = mref as *mut mmtk::Mutator<FVM> as usize;
+        let r = quiet(move || {
+            let m = unsafe { &mut *(mptr as *mut mmtk::Mutator<FVM>) };
+            mmtk::memory_manager::alloc(m, size, al, 0, AllocationSemantics::Default)
+        });
+        let (res, cell) = match r {
+            Some(a) if !a.is_zero() => {
+                let (bstart, cell, _) = mmtk::verif::verif_block_free_list(a, 1);
+                (clamp_off(a, bstart), cell.min(1 << 30) as i64)
+            }
+            Some(_) => (-2, 0),
+            None => (-1, 0),
+        };
+        trace.push(
+            Obj::new("AL")
+                .uint("size", size as u64)
+                .uint("la", al.trailing_zeros() as u64)
+                .uint("lmin", align.trailing_zeros() as u64)
+                .uint("lmax", maxa.trailing_zeros() as u64)
+                .uint("max_non_los", max_non_los.min(1 << 30) as u64)
+                .int("res", res)
+                .int("cell", cell)
+                .uint("block", block_bytes as u64)
+                .finish(),
+        );
     }
     let n = trace.write_to(&out).expect("write trace");
     println!("rows={}", n);
